@@ -136,6 +136,7 @@ def main(argv=None):
     # ---- 1. translator + build (proof obligations)
     from tools import translate
     lean_module = getattr(mod, "LEAN_MODULE", "Luqum.Props.%s" % prop)
+    extra_modules = list(getattr(mod, "EXTRA_LEAN_MODULES", []))
     props_file = os.path.join(common.LEAN_DIR, *lean_module.split(".")) + ".lean"
     broken = []          # names of theorems / obligations / streams that no longer check
     build_log = ""
@@ -146,7 +147,7 @@ def main(argv=None):
         return 2
     with common.BuildLock():
         changed = translate.regenerate()
-        ok_thm, build_log = common.lake_build([lean_module])
+        ok_thm, build_log = common.lake_build([lean_module] + extra_modules)
         ok_drv, drv_log = common.lake_build(["luqumdrv"])
         # keep a private copy of the driver so that a concurrent rebuild cannot disturb this run
         if ok_drv:
@@ -155,6 +156,7 @@ def main(argv=None):
             shutil.copy2(common.DRIVER, private)
             common.DRIVER = private
     thms = common.theorem_names(props_file)
+    extra_thms = {m: common.theorem_names(os.path.join(common.LEAN_DIR, *m.split(".")) + ".lean") for m in extra_modules}
     axioms = {}
     if not ok_thm:
         errs = [l for l in build_log.split("\n") if l.startswith("error")]
@@ -163,6 +165,12 @@ def main(argv=None):
         ok_ax, axioms, ax_out = common.axiom_audit(lean_module, thms)
         if not ok_ax:
             broken.append({"obligation": "axiom audit of %s" % lean_module, "output": ax_out[-2000:]})
+        for m, names in extra_thms.items():
+            ok_m, ax_m, out_m = common.axiom_audit(m, names)
+            axioms.update(ax_m)
+            if not ok_m:
+                broken.append({"obligation": "axiom audit of %s" % m, "output": out_m[-2000:]})
+        thms = thms + [n for names in extra_thms.values() for n in names]
     grep_hits = common.grep_audit()
     if grep_hits:
         broken.append({"obligation": "grep audit", "hits": grep_hits})
